@@ -97,6 +97,33 @@ class ClassInfo:
         return False
 
 
+def ends_with_return(body):
+    return bool(body) and isinstance(body[-1], ast.Return)
+
+
+def normalize_returns(body, kind):
+    """early returns become else-branches: `if c: A; return [x]` followed by R  ==  `if c: A[; return x] else: R`.
+    In propagate()/clock() (no return value) a trailing bare `return` is dropped."""
+    out = []
+    for i, st in enumerate(body):
+        if isinstance(st, ast.If) and ends_with_return(st.body) and not ends_with_return(st.orelse) and (st.orelse or body[i + 1:]):
+            rest = list(st.orelse) + list(body[i + 1:])
+            new_body = list(st.body) if kind == 'func' else list(st.body[:-1]) or [ast.Pass()]
+            if kind != 'func' and st.body[-1].value is not None: return out + body[i:]      # `return value` in a method: leave it (rejected later)
+            out.append(ast.If(test=st.test, body=new_body, orelse=normalize_returns(rest, kind)))
+            return out
+        if isinstance(st, ast.If) and ends_with_return(st.orelse) and not ends_with_return(st.body) and body[i + 1:]:
+            rest = list(st.body) + list(body[i + 1:])
+            new_else = list(st.orelse) if kind == 'func' else list(st.orelse[:-1]) or [ast.Pass()]
+            if kind != 'func' and st.orelse[-1].value is not None: return out + body[i:]
+            out.append(ast.If(test=st.test, body=normalize_returns(rest, kind), orelse=new_else))
+            return out
+        if kind != 'func' and isinstance(st, ast.Return) and st.value is None and i == len(body) - 1:
+            return out
+        out.append(st)
+    return out
+
+
 class Tr:
     """Symbolic state-passing translation of one method body."""
     def __init__(self, ci, mname, kind):
@@ -156,6 +183,9 @@ class Tr:
             if isinstance(e.op, ast.Not): return '(b2z %s)' % self.tr_bool(e, env)
         if isinstance(e, ast.Compare):
             return '(b2z %s)' % self.tr_bool(e, env)
+        if isinstance(e, ast.BoolOp) and all(self.is_boolean_typed(v) for v in e.values):
+            # `x = (a == 0) or (b is None)`: every operand is a bool, so and/or return a bool (True == 1)
+            return '(b2z %s)' % self.tr_bool(e, env)
         if isinstance(e, ast.IfExp):
             return '(if %s then %s else %s)' % (self.tr_bool(e.test, env), self.tr_int(e.body, env), self.tr_int(e.orelse, env))
         if isinstance(e, ast.Subscript) and self.is_self_attr(e.value) and e.value.attr in self.ci.attrs:
@@ -196,7 +226,9 @@ class Tr:
                     if p and p[0] == 'port':
                         self.use(self.used_w, p[1]); return 'w_' + p[1]
                     if p and p[0] == 'item':
-                        return env['item:' + p[1]][0]
+                        it = env['item:' + p[1]]
+                        for a in (it[2] if len(it) > 2 else ()): self.use(self.used_w, a)
+                        return it[0]
                 if f.attr == 'getParameterValue' and self.is_self(f.value) and len(e.args) == 1 \
                    and isinstance(e.args[0], ast.Constant):
                     n = e.args[0].value
@@ -211,6 +243,14 @@ class Tr:
 
     def is_self(self, e):
         return isinstance(e, ast.Name) and e.id == 'self'
+
+    def is_boolean_typed(self, e):
+        if isinstance(e, ast.Compare): return True
+        if isinstance(e, ast.Constant) and isinstance(e.value, bool): return True
+        if isinstance(e, ast.UnaryOp) and isinstance(e.op, ast.Not): return True
+        if isinstance(e, ast.Call) and isinstance(e.func, ast.Name) and e.func.id == 'not': return True
+        if isinstance(e, ast.BoolOp): return all(self.is_boolean_typed(v) for v in e.values)
+        return False
 
     def tr_bool(self, e, env):
         if isinstance(e, ast.Constant) and isinstance(e.value, bool):
@@ -265,7 +305,7 @@ class Tr:
         raise Unsupported('write to unknown attribute %s' % a)
 
     def run(self, body, env, lines, ind):
-        for st in body:
+        for st in normalize_returns(list(body), self.kind):
             self.stmt(st, env, lines, ind)
 
     def bind(self, env, lines, ind, key, expr, base):
@@ -301,6 +341,20 @@ class Tr:
             if len(st.targets) != 1: raise Unsupported('multiple targets')
             t = st.targets[0]
             if isinstance(t, ast.Name):
+                p = self.port_of(st.value, env)
+                if p is not None:
+                    # a local naming a wire: reads through it are reads of that wire (values do not change during the method)
+                    if p[0] == 'port':
+                        a = p[1]
+                        if a in self.ci.optional: raise Unsupported('alias of an optional port')
+                        if ('put:' + a) in env.get('#written', ()): raise Unsupported('alias of a wire already put()')
+                        self.use(self.used_v, a)
+                        env['item:' + t.id] = ('w_' + a, 'v_' + a, (a,))     # width parameters are requested only if getWidth() is used
+                    else:
+                        env['item:' + t.id] = env['item:' + p[1]]
+                    env.pop(t.id, None)
+                    return
+                env.pop('item:' + t.id, None)
                 self.bind(env, lines, ind, t.id, self.tr_int(st.value, env), t.id); return
             if self.is_self_attr(t):
                 key = 'self.' + t.attr
@@ -353,6 +407,15 @@ class Tr:
             e2 = dict(env); l2 = []
             self.run(body, e2, l2, ind + '    ')
             envs.append(e2); blocks.append(l2)
+        # wire-valued locals bound in the branches: split (width, value) into two mergeable pseudo-variables
+        for k in list(keys):
+            ik = 'item:' + k
+            if any(ik in e2 for e2 in envs):
+                if not all(ik in e2 for e2 in envs):
+                    raise Unsupported('local %s names a wire on one path only' % k)
+                for e2 in envs:
+                    e2['iv:' + k] = e2[ik][1]
+                keys += ['iv:' + k]
         if envs[0].get('#returned') or envs[1].get('#returned'):
             if not (envs[0].get('#returned') and envs[1].get('#returned')):
                 # `if c: return x` followed by more statements: the rest is the else branch
@@ -381,7 +444,7 @@ class Tr:
             return
         names = []
         for k in merged:
-            base = k.replace('self.', 'n_').replace('val:', 'o_').replace('flag:', 'f_')
+            base = k.replace('self.', 'n_').replace('val:', 'o_').replace('flag:', 'f_').replace('iw:', 'w_').replace('iv:', 'v_')
             names.append(self.fresh(base))
         pat = names[0] if len(names) == 1 else "'(%s)" % ', '.join(names)
         def tup(e2):
@@ -395,6 +458,14 @@ class Tr:
         lines.append('%sin' % ind)
         for k, n in zip(merged, names):
             env[k] = n
+        for k in keys:
+            if k.startswith('iv:'):
+                nm = k[3:]
+                wa, wb = envs[0]['item:' + nm], envs[1]['item:' + nm]
+                wexpr = wa[0] if wa[0] == wb[0] else '(if %s then %s else %s)' % (c, wa[0], wb[0])
+                ports = tuple(dict.fromkeys((wa[2] if len(wa) > 2 else ()) + (wb[2] if len(wb) > 2 else ())))
+                env['item:' + nm] = (wexpr, env.get('iv:' + nm), ports)
+                env.pop(nm, None)
 
     def stmt_for(self, st, env, lines, ind):
         if st.orelse: raise Unsupported('for/else')
@@ -620,6 +691,7 @@ def wire_ops(repo):
                 env = {'val': 'val', 'self.width': 'width'}
                 lines = []
                 stored = None; appended = False
+                pend_alias = {'Wire.prepared'}
                 for st in m.body:
                     if isinstance(st, ast.Expr) and isinstance(st.value, ast.Constant): continue
                     if isinstance(st, ast.If):
@@ -629,9 +701,12 @@ def wire_ops(repo):
                             continue
                         raise Unsupported('if in Wire.%s' % mname)
                     if isinstance(st, ast.Expr) and isinstance(st.value, ast.Call) and isinstance(st.value.func, ast.Attribute) \
-                       and st.value.func.attr == 'append' and ast.unparse(st.value.func.value) == 'Wire.prepared' \
+                       and st.value.func.attr == 'append' and ast.unparse(st.value.func.value) in pend_alias \
                        and ast.unparse(st.value.args[0]) == 'self':
                         appended = True; continue
+                    if isinstance(st, ast.Assign) and len(st.targets) == 1 and isinstance(st.targets[0], ast.Name) \
+                       and ast.unparse(st.value) in pend_alias:
+                        pend_alias.add(st.targets[0].id); continue           # a local naming the pending list
                     if isinstance(st, ast.Assign) and len(st.targets) == 1 and tr.is_self_attr(st.targets[0]):
                         a = st.targets[0].attr
                         if a != target or stored is not None: raise Unsupported('write to self.%s in Wire.%s' % (a, mname))
